@@ -143,6 +143,31 @@ def none_present(cond, d, b):
     return "unknown"
 
 
+def r2b_broker_get(cx):
+    """The binder's results.get(d) must hand over the dependency's value whatever it is: a value that happens to be falsy (0, False, '', [])
+    is still the value; only an absent key yields the default."""
+    cx.rule("C02.R2", "positional arguments are results.get(d) for d in the ordered deps list", floor=2)
+    m = cx.repo.module(DR)
+    fn = m.func("Broker.get", "C02.R2")
+    ps = params(fn)
+    comp, dflt = ps[1], ps[2] if len(ps) > 2 else "default"
+    rets = [r for r in walk_body(fn.body) if isinstance(r, ast.Return) and r.value is not None]
+    value_forms = ("self[%s]" % comp, "self.instances[%s]" % comp, "self.instances.get(%s, %s)" % (comp, dflt))
+    ok = bool(rets) and any(U(r.value) in value_forms for r in rets)
+    for r in rets:
+        t = U(r.value)
+        if t in value_forms or t == dflt:
+            # the default is returned only where the key is absent: KeyError arm, or an explicit membership test
+            if t == dflt:
+                h = enclosing(r, ast.ExceptHandler)
+                g = guard_texts(r)
+                ok = ok and ((h is not None and h.type is not None and "KeyError" in U(h.type)) or ("%s in self" % comp, False) in g or ("%s in self.instances" % comp, False) in g)
+            continue
+        ok = False      # e.g. 'value or default', 'value if value else default': decides on the truthiness of the value
+    cx.require(ok, fn, "Broker.get returns the stored value whenever the component is present (a falsy value is still the value); the default only for an absent component",
+               construct=" | ".join(U(r.value) for r in rets) or "(no return)")
+
+
 def r3_iff(cx):
     cx.rule("C02.R3", "missing = required deps absent from the broker + groups with no member present", floor=3)
     m = cx.repo.module(DR)
@@ -396,6 +421,7 @@ def run(cx):
     mods = repo.all_modules() if cx.tier == "thorough" else anchor
     cx.guard(r1_classification)
     cx.guard(r2_binding)
+    cx.guard(r2b_broker_get)
     cx.guard(r3_iff)
     cx.guard(r4_process_order, mods)
     cx.guard(r5_enable)
